@@ -27,6 +27,8 @@ class NodeCounter(object):
         # copy constructor
         for k, v in initialCounts.items():
             self._dict[NodeCounter.makeX12Path(k)] = v
+        # required loops already reported missing in the current instance of their parent
+        self._missing = set()
 
     #@dump_args
     def reset_to_node(self, xpath):
@@ -38,6 +40,19 @@ class NodeCounter(object):
         child_keys = [x for x in self._dict.keys() if parent.is_child_path(x.format())]
         for k in child_keys:
             del self._dict[k]
+        self._missing = set(x for x in self._missing if not parent.is_child_path(x))
+
+    def note_missing(self, xpath):
+        """
+        Remember that the node at xpath has been reported missing
+        """
+        self._missing.add(NodeCounter.makeX12Path(xpath).format())
+
+    def is_noted_missing(self, xpath):
+        """
+        Has the node at xpath been reported missing since its parent was last reset?
+        """
+        return NodeCounter.makeX12Path(xpath).format() in self._missing
 
     #@dump_args
     def increment(self, xpath):
